@@ -2,6 +2,7 @@ package props
 
 import (
 	"fmt"
+	"github.com/evanoberholster/imagemeta"
 	"runtime"
 	"strings"
 	"sync"
@@ -182,7 +183,7 @@ type C14 struct {
 func (e *C14) ID() string    { return "C14" }
 func (e *C14) Level() string { return "exploration" }
 func (e *C14) Rule() string {
-	return "inputs as in C02 (corpus, malformations, loop shapes, random) with extra weight on size-field attacks (PRVW size, iloc/iinf/ipma counts, tag counts, 32/64-bit box sizes, ftyp size, PNG chunk lengths, JPEG segment lengths set to huge values) and, every 12th case, one tiny unit (an 8..32-byte box of each known type inside meta/iinf/ipco/iref/moov/the Canon uuid/the preview uuid/top level, a minimal Exif or XMP APP1 segment, PNG chunk, IFD entry, chain of one-entry IFDs, XMP token) tiled to 180 KB..1.2 MB, where per-unit allocation adds up against 16 bytes per input byte; for inputs above 96 KiB only the library's own entry points are measured (harness-composed callbacks allocate per block on the caller's account); each call runs alone in a single-goroutine worker between two runtime.ReadMemStats; refuted by TotalAlloc delta > 4MiB + 16*len(input) or by the worker dying of out-of-memory (RLIMIT_AS back-stop). Non-trivial: the call allocated anything; distinct = (entry, log2 bucket of bytes allocated per input byte)."
+	return "inputs as in C02 (corpus, malformations, loop shapes, random) with extra weight on size-field attacks (PRVW size, iloc/iinf/ipma counts, tag counts, 32/64-bit box sizes, ftyp size, PNG chunk lengths, JPEG segment lengths set to huge values) and, every 12th case, one tiny unit (an 8..32-byte box of each known type inside meta/iinf/ipco/iref/moov/the Canon uuid/the preview uuid/top level, a minimal Exif or XMP APP1 segment, PNG chunk, IFD entry, chain of one-entry IFDs, XMP token) tiled to 180 KB..1.2 MB, where per-unit allocation adds up against 16 bytes per input byte; for inputs above 96 KiB only the library's own entry points are measured (harness-composed callbacks allocate per block on the caller's account); one case decodes 115 JPEGs in a row that carry 2000 pairwise different zone strings each (230 000 in all: what a decode allocates must not depend on what the process keeps from earlier files); each call runs alone in a single-goroutine worker between two runtime.ReadMemStats; refuted by TotalAlloc delta > 4MiB + 16*len(input) or by the worker dying of out-of-memory (RLIMIT_AS back-stop). Non-trivial: the call allocated anything; distinct = (entry, log2 bucket of bytes allocated per input byte)."
 }
 func (e *C14) Assumptions() []string {
 	return []string{"TotalAlloc counts heap allocation only (stack growth is not measured)", "the library entry points are called bare (results discarded unformatted); for the composed entries (scanner + callbacks) the harness's own allocations inside a call (observation strings, 777-byte drain buffers) are inside the 4 MiB constant, and those entries are not run on inputs above 96 KiB",
@@ -207,6 +208,31 @@ func (e *C14) Run(c *core.Ctx, idx int) {
 	maxLen := 60000
 	if c.Thorough() {
 		maxLen = 1 << 19
+	}
+	if idx == 4321 {
+		// a process that has seen many files: 115 JPEGs in a row, each with 2000 zone strings no
+		// earlier file had; what one decode allocates must not depend on what the process keeps
+		// from the earlier ones
+		var m0, m1 runtime.MemStats
+		imagemeta.VerifResetState()
+		for k := 0; k < 115; k++ {
+			data := gen.ZoneFloodJPEG(k)
+			rs := mon.NewRS(data)
+			c.SetPhase(fmt.Sprintf("zone flood file %d", k))
+			runtime.ReadMemStats(&m0)
+			_, _, _ = core.Guard(func() { _, _ = imagemeta.DecodeJPEG(rs) })
+			runtime.ReadMemStats(&m1)
+			c.Rec.Eval(1)
+			delta, bound := m1.TotalAlloc-m0.TotalAlloc, uint64(4<<20)+16*uint64(len(data))
+			c.Rec.Max("alloc_over_bound", float64(delta)/float64(bound))
+			if delta > bound {
+				c.Rec.Violation("alloc:history:DecodeJPEG", fmt.Sprintf("DecodeJPEG allocated %d bytes for a %d-byte input (bound %d) as file %d of a series whose files each carry 2000 zone strings not seen before", delta, len(data), bound, k),
+					map[string]any{"file_index": k, "allocated": delta, "len": len(data)})
+				break
+			}
+		}
+		imagemeta.VerifResetState()
+		return
 	}
 	data, desc, fi := workInput(c, p, idx*2+1, maxLen)
 	r := c.Rng(idx, 14)
